@@ -26,6 +26,9 @@ pub struct RunCfg {
     pub kind: u8,
     pub seed: u64,
     pub change_points: Vec<u16>,
+    /// stall the walker at its k-th directory read / readlink for this many milliseconds
+    #[serde(default)]
+    pub stall: Option<(u8, u16)>,
 }
 
 #[derive(Clone, Debug, Serialize, Deserialize)]
@@ -47,6 +50,14 @@ pub fn sched_of(r: &RunCfg) -> Sched {
         _ => SchedKind::Free,
     };
     Sched { kind, seed: r.seed, change_points: r.change_points.iter().map(|c| *c as usize).collect(), parblock: r.parblock }
+}
+
+/// a long pause of the walker in the middle of the walk (timeouts, "queue went quiet" assumptions)
+pub fn stall_rules(r: &RunCfg) -> Vec<Rule> {
+    match r.stall {
+        Some((k, ms)) => vec![Rule { sys: vec![Sys::Getdents, Sys::Readlink], path: PathSel::Sandbox, nth: Nth::Kth(k as usize), action: Action::Delay(ms as u64) }],
+        None => vec![],
+    }
 }
 
 pub fn base_strategy() -> BoxedStrategy<c02::Case> {
@@ -72,8 +83,8 @@ pub fn base_strategy() -> BoxedStrategy<c02::Case> {
 }
 
 pub fn run_cfg() -> BoxedStrategy<RunCfg> {
-    (any::<bool>(), 0..WORKERS.len(), 0u8..8, any::<u64>(), prop::collection::vec(1u16..300, 0..4))
-        .prop_map(|(parblock, w, kind, seed, change_points)| RunCfg { parblock, workers: WORKERS[w], kind, seed, change_points })
+    (any::<bool>(), 0..WORKERS.len(), 0u8..8, any::<u64>(), prop::collection::vec(1u16..300, 0..4), prop::option::weighted(0.04, (0u8..12, prop_oneof![Just(300u16), Just(1200u16), Just(2500u16)])))
+        .prop_map(|(parblock, w, kind, seed, change_points, stall)| RunCfg { parblock, workers: WORKERS[w], kind, seed, change_points, stall })
         .boxed()
 }
 
@@ -188,8 +199,11 @@ pub fn one_run(c: &Case, r: &RunCfg, rec: &mut Rec) -> Result<Option<OneRun>, St
         Plan::Copy(m) => m,
         _ => return Ok(None),
     };
-    let out = Sup::run(sup_spec(&sb, b.inv.argv(), vec![], sched_of(r)));
+    let out = Sup::run(sup_spec(&sb, b.inv.argv(), stall_rules(r), sched_of(r)));
     rec.eval(1);
+    if r.stall.is_some() {
+        rec.class(format!("stall|{}ms|fired={}", r.stall.unwrap().1, out.fired.iter().sum::<usize>() > 0));
+    }
     if let Some(e) = out.setup_error {
         return Err(format!("supervisor: {e}"));
     }
@@ -366,6 +380,6 @@ impl Check for C06 {
         }
     }
     fn required_classes(&self, _tier: Tier) -> Vec<String> {
-        ["run|parblock|w64", "run|parfile|w1|", "WalkerFirst", "WorkersFirst", "StarveWorker", "multiblock=true", "orders=4"].iter().map(|s| s.to_string()).collect()
+        ["run|parblock|w64", "run|parfile|w1|", "WalkerFirst", "WorkersFirst", "StarveWorker", "multiblock=true", "orders=4", "stall|1200ms|fired=true", "stall|2500ms|fired=true"].iter().map(|s| s.to_string()).collect()
     }
 }
